@@ -205,6 +205,73 @@ def make_derived(oid):
                       stubs=["trig / products uninterpreted (coordinates compared as terms)"], max_paths=2000)
 
 
+def make_extras(oid, how):
+    """grids with identical format, node_lon, node_lat and face_node_connectivity but different OTHER content (face centres absent / present / different)
+    must compare equal.  how: 'topology' = Grid.from_topology(face_lon=, face_lat=); 'coords' = datasets whose face centres are xarray coordinates
+    (what xr.open_dataset makes of a CF `coordinates` attribute)"""
+    nn, nf, nm = 4, 2, 3
+
+    def setup(ctx):
+        ctx.const("how", how)
+        lon = [z3.Real(f"lon_{i}") for i in range(nn)]
+        lat = [z3.Real(f"lat_{i}") for i in range(nn)]
+        fn, n = C.sym_face_table(ctx, nf, nm, nn, prefix="fn")
+        fl = [[z3.Real(f"flon{k}_{i}") for i in range(nf)] for k in (1, 2)]
+        fa = [[z3.Real(f"flat{k}_{i}") for i in range(nf)] for k in (1, 2)]
+        for v in lon + fl[0] + fl[1]:
+            ctx.solver.add(v >= -180, v <= 180)
+        for v in lat + fa[0] + fa[1]:
+            ctx.solver.add(v >= -90, v <= 90)
+        ctx.eng.declare("lon", lon); ctx.eng.declare("lat", lat)
+        ctx.eng.declare("flon1", fl[0]); ctx.eng.declare("flon2", fl[1]); ctx.eng.declare("flat1", fa[0]); ctx.eng.declare("flat2", fa[1])
+        return dict(lon=lon, lat=lat, fn=fn, fl=fl, fa=fa)
+
+    def grids(lon, lat, fn_arr, fl, fa, Grid, DA, DS, arr_f):
+        out = []
+        for k in (None, 0, 1):
+            if how == "topology":
+                kw = {} if k is None else dict(face_lon=arr_f(fl[k]), face_lat=arr_f(fa[k]))
+                out.append(Grid.from_topology(arr_f(lon), arr_f(lat), fn_arr(), fill_value=F, **kw))
+            else:
+                ds = DS()
+                ds["node_lon"] = DA(arr_f(lon), dims=["n_node"])
+                ds["node_lat"] = DA(arr_f(lat), dims=["n_node"])
+                ds["face_node_connectivity"] = DA(fn_arr(), dims=["n_face", "n_max_face_nodes"], attrs=dict(C.FN_ATTRS))
+                if k is not None:
+                    ds["face_lon"] = DA(arr_f(fl[k]), dims=["n_face"])
+                    ds["face_lat"] = DA(arr_f(fa[k]), dims=["n_face"])
+                    ds = ds.set_coords(["face_lon", "face_lat"])
+                out.append(Grid.from_dataset(ds, source_grid_spec="UGRID"))
+        return out
+
+    def run(ctx, i):
+        Grid = world().get("uxarray.grid.grid", "Grid")
+        gs = grids(i["lon"], i["lat"], lambda: C.sarr_int(i["fn"]), i["fl"], i["fa"], Grid, symxr.DataArray, symxr.Dataset, lambda v: C.sarr_1d(v, symnp.float64))
+        names = ["no centres", "centres A", "centres B"]
+        for a in range(3):
+            for b in range(3):
+                if a != b:
+                    ctx.prove(f"'{names[a]}' == '{names[b]}': same format, node_lon, node_lat and face_node_connectivity => equal (and != is False)",
+                              sc.and_(gs[a] == gs[b], sc.not_(gs[a] != gs[b])))
+        ctx.reachable("centres differ", z3.Or(*[x != y for x, y in zip(i["fl"][0] + i["fa"][0], i["fl"][1] + i["fa"][1])]))
+
+    def replay(v):
+        import xarray as xr
+        import uxarray as ux
+        rows = np.array(v["fn"], dtype=np.intp)
+        gs = grids(v["lon"], v["lat"], lambda: rows.copy(), [v["flon1"], v["flon2"]], [v["flat1"], v["flat2"]], ux.Grid, xr.DataArray, xr.Dataset, lambda x: np.array(x, dtype=float))
+        names = ["no face centres", f"face centres {v['flon1']}/{v['flat1']}", f"face centres {v['flon2']}/{v['flat2']}"]
+        for a in range(3):
+            for b in range(3):
+                if a != b and (not (gs[a] == gs[b]) or (gs[a] != gs[b])):
+                    return (f"two grids ({'from_topology' if how == 'topology' else 'UGRID datasets with centres as coordinates'}) with identical format, node_lon {v['lon']}, node_lat {v['lat']} "
+                            f"and face_node_connectivity {v['fn']} compare unequal: one has {names[a]}, the other {names[b]}")
+        return None
+
+    return Obligation(oid, f"equality ignores everything but format, node_lon, node_lat, face_node_connectivity ({how})", setup, run, replay, exact=True, functions=FUNCS + ["Grid.from_topology", "_topology._read_topology"],
+                      bounds="4 nodes, 2 faces <= 3 corners, symbolic coordinates; three grids differing only in their face centres (absent / A / B)", assumptions=["coordinates are finite (no NaN)"])
+
+
 def _validate():
     n = 0
     rows = [[0, 1, 2, F], [1, 3, 2, 4]]
@@ -231,6 +298,6 @@ def obligations(tier):
         make("C20.eq.more_faces", (4, 1, 3), (4, 2, 3)),
         make("C20.eq.wider_table", (4, 2, 3), (4, 2, 4)),
         make("C20.eq.same.5n3f4", (5, 3, 4), (5, 3, 4), tiers=("thorough",), cost=5),
-        make_derived("C20.eq.derived"),
+        make_derived("C20.eq.derived"), make_extras("C20.eq.extras.topology", "topology"), make_extras("C20.eq.extras.coords", "coords"),
     ]
     return [o for o in obs if tier in o.tiers]
